@@ -57,11 +57,14 @@ CLAIMED = {
          "absent, never an error; by induction every finite store/load/set_permissions history from new/new_with_backing (also over "
          "several handles with clones, in the model) answers what the byte array answers; eq reflexive and implies identical loads and "
          "permissions; permission range, frame and default theorems. Tied to the code by a three-way per-operation differential run "
-         "(falcon / model / byte-array spec) on every check, including Memory<Expression> histories compared after evaluation.",
+         "(falcon / model / byte-array spec) on every check. For V = il::Expression: a mirror model of the Expression instance of value.rs, a "
+         "proved homomorphism to the Constant memory (store and load, all widths, errors and panics included) for closed evaluation, any "
+         "valuation and State::symbolize_and_eval, and the history theorem for well-sorted stored expressions; mode-E correspondence "
+         "runs the Expression model against Memory<Expression>.",
     design_ref="DESIGN.md §6 C08",
     note="Trusted: Lean kernel; axioms propext, Classical.choice, Quot.sound; harness, driver and diff. Copy-on-write sharing "
          "(RC::make_mut) is not modelled: clone independence is a model-level theorem plus a correspondence check over interleaved "
-         "multi-handle histories. V = Expression is correspondence-only. Widths below 2^63 bits.",
+         "multi-handle histories. Widths below 2^63 bits. Harness mode-E histories use constant trees (scalars are covered by the theorems).",
     technique="Lean 4 proof of a mirror model (invariant + refinement to a byte array) + differential correspondence check"),
  "C20": dict(
     category="proof",
